@@ -58,10 +58,12 @@ def _embed(dec, type_, pre_n, suf_n, lcls, rcls, inst_segs, what, value_of=None,
 
 
 # IPv4: canonical quad, not all-zero / .0 / .255 (last octet 1..4 or 2d form 1x)
+_embed(find_ips, "network.ip", 1, 1, "ip_neutral", "ip_neutral", [b"1", (1, "digit"), b".2.3.", (1, "d1_4")], "find_ips",
+       funcs=["multidecoder.decoders.network.find_ips", "multidecoder.decoders.network.parse_ip"], name="ip_p1_s1_two_digits", timeout=400)
 for pn, sn in ((0, 0), (1, 1), (2, 1)):
     _embed(find_ips, "network.ip", pn, sn, "ip_neutral", "ip_neutral", [b"1", (1, "digit"), b".2", (1, "digit"), b".3.", (1, "d1_4")],
            "find_ips", funcs=["multidecoder.decoders.network.find_ips", "multidecoder.decoders.network.parse_ip"],
-           name=f"ip_p{pn}_s{sn}", timeout=900, tier="both" if pn < 2 else "thorough")
+           name=f"ip_p{pn}_s{sn}", timeout=400 if pn == 0 else 1500, tier="both" if pn < 1 else "thorough")
 
 # domain: letters-digits-hyphen, >= 7 characters, .com
 for pn, sn in ((0, 0), (1, 1), (2, 2)):
@@ -78,7 +80,7 @@ for pn, sn in ((0, 0), (1, 1)):
 # URL (value = the text itself: no escapes in the instance)
 for pn, sn in ((0, 0), (1, 1)):
     _embed(find_urls, "network.url", pn, sn, "url_neutral_l", "url_neutral_r", [b"http://example.com/a", (2, "lower"), b"/b"],
-           "find_urls", funcs=["multidecoder.decoders.network.find_urls"], name=f"url_p{pn}_s{sn}", timeout=900)
+           "find_urls", funcs=["multidecoder.decoders.network.find_urls"], name=f"url_p{pn}_s{sn}", timeout=400)
 
 # POSIX path
 for pn, sn in ((0, 0), (1, 1)):
